@@ -187,6 +187,9 @@ theorem sketch_incrementAt_r1_pin :
 theorem sketch_reset_c0_pin (i : BitVec 64) (len_s_table : BitVec 64) :
     Gen.SketchSites.sketch_reset_c0 i len_s_table = (BitVec.slt i len_s_table) := by pin_tac Gen.SketchSites.sketch_reset_c0
 
+theorem sketch_reset_x0_pin (s_table_i : BitVec 64) :
+    Gen.SketchSites.sketch_reset_x0 s_table_i = (s_table_i &&& (1229782938247303441#64)) := by pin_tac Gen.SketchSites.sketch_reset_x0
+
 theorem sketch_reset_a0_pin :
     Gen.SketchSites.sketch_reset_a0  = (0#64) := by pin_tac Gen.SketchSites.sketch_reset_a0
 
@@ -292,6 +295,7 @@ theorem siteParams_pin : Gen.SketchSites.siteParams = [("sketch_ensureCapacity_c
   ("sketch_incrementAt_r0", []),
   ("sketch_incrementAt_r1", []),
   ("sketch_reset_c0", ["i", "len_s_table"]),
+  ("sketch_reset_x0", ["s_table_i"]),
   ("sketch_reset_a0", []),
   ("sketch_reset_a1", []),
   ("sketch_reset_u0", ["i"]),
@@ -309,15 +313,15 @@ theorem siteParams_pin : Gen.SketchSites.siteParams = [("sketch_ensureCapacity_c
   ("rehash_u1", ["h"]),
   ("rehash_r0", ["h"])] := by rfl
 
-theorem shape_pin : Gen.SketchSites.shape = [("newSketch", [0, 0, 0, 1, 0]),
-  ("sketch_ensureCapacity", [4, 0, 8, 0, 0]),
-  ("sketch_isNotInitialized", [0, 0, 0, 1, 0]),
-  ("sketch_frequency", [2, 1, 11, 2, 0]),
-  ("sketch_increment", [3, 1, 19, 0, 0]),
-  ("sketch_incrementAt", [1, 1, 2, 2, 0]),
-  ("sketch_reset", [1, 2, 4, 0, 0]),
-  ("sketch_hash", [0, 0, 0, 1, 0]),
-  ("spread", [0, 5, 0, 1, 0]),
-  ("rehash", [0, 2, 0, 1, 0])] := by rfl
+theorem shape_pin : Gen.SketchSites.shape = [("newSketch", [0, 0, 0, 1, 0, 0]),
+  ("sketch_ensureCapacity", [4, 0, 8, 0, 0, 0]),
+  ("sketch_isNotInitialized", [0, 0, 0, 1, 0, 0]),
+  ("sketch_frequency", [2, 1, 11, 2, 0, 0]),
+  ("sketch_increment", [3, 1, 19, 0, 0, 0]),
+  ("sketch_incrementAt", [1, 1, 2, 2, 0, 0]),
+  ("sketch_reset", [1, 2, 4, 0, 0, 1]),
+  ("sketch_hash", [0, 0, 0, 1, 0, 0]),
+  ("spread", [0, 5, 0, 1, 0, 0]),
+  ("rehash", [0, 2, 0, 1, 0, 0])] := by rfl
 
 end OtterVerif.Pin.SketchSites
